@@ -346,15 +346,19 @@ class Impl(object):
             k["overwrite"] = True
         return Traph(**k)
 
-    def bystander(self):
+    def bystander(self, texts=None):
         """a second, unrelated index alive in the same process (applications keep several corpora open): what happens to
         it must not reach the index under test"""
         try:
-            if getattr(self, "other", None) is None:
-                self.other = Traph(folder=None, default_webentity_creation_rule=RULES["domain"], webentity_creation_rules={})
+            want = "latin-1" if SESSION_ENCODING[0] == "utf-8" else "utf-8"
+            if getattr(self, "other", None) is None or getattr(self, "other_enc", None) != want:
+                self.other = Traph(folder=None, encoding=want, default_webentity_creation_rule=RULES["domain"], webentity_creation_rules={})
+                self.other_enc = want
                 self.other_n = 0
             self.other_n += 1
             o, n = self.other, self.other_n
+            for txt in (texts or [])[:3]:          # the same text the index under test is about to receive
+                o.add_page(txt)
             site = "s:http|h:org|h:bystander%d|" % (n % 7)
             o.add_page(site + "p:%d|" % n, crawled=bool(n % 2))
             o.add_links([(site + "p:%d|" % n, site + "p:%d|" % (n // 2))])
@@ -405,7 +409,12 @@ class Impl(object):
         self.n_exec = getattr(self, "n_exec", 0) + 1
         if BYSTANDER and self.n_exec % 3 == 0 and not line.startswith(("co ", "cut", "uncut")):
             saved = list(WRITE_LOG), list(FULL_LOG)
-            self.bystander()
+            texts = []
+            for tok in re.findall(r"[xsb]((?:[0-9a-f]{2})+)", line):
+                v = as_api_arg(bytes.fromhex(tok))
+                if isinstance(v, str) and not v.isascii() and v not in texts:
+                    texts.append(v)
+            self.bystander(texts)
             WRITE_LOG[:], FULL_LOG[:] = saved
         signal.signal(signal.SIGALRM, _on_alarm)
         signal.setitimer(signal.ITIMER_REAL, OP_TIMEOUT)
@@ -661,9 +670,40 @@ class Impl(object):
         self.saved = None
         return "ok"
 
+    def _drain(self, g, nested):
+        """advance a query generator one yield at a time, asking other read-only questions in between"""
+        for k, st in enumerate(g):
+            if st.done:
+                return st.result
+            if k < 25:
+                try:
+                    nested(k)
+                except TraphException:
+                    pass
+        return None
+
+    def _other_walks(self, weid, prefixes):
+        t = self.t
+
+        def nested(k):
+            if k % 3 == 0:
+                t.get_webentity_pages(weid, list(prefixes))
+            elif k % 3 == 1:
+                for j, (node, lru) in enumerate(t.pages_iter()):
+                    if node.has_outlinks():
+                        t.get_page_links(lru)
+                        break
+                    if j > 6:
+                        break
+            else:
+                t.get_webentity_outlinks(weid, list(prefixes))
+        return nested
+
     def _query(self, w):
         t = ArgStyle(self.t)
         q = w[0]
+        self.gen_calls = getattr(self, "gen_calls", 0) + 1
+        by_hand = self.gen_calls % 3 == 0
         if q == "retrieveprefix":
             return "ok " + hx(t.retrieve_prefix(unx_arg(w[1])))
         if q == "potential":
@@ -673,6 +713,18 @@ class Impl(object):
             return "ok %d" % t.retrieve_webentity(unx_arg(w[1]))
         if q == "webyprefix":
             return "ok %d" % t.get_webentity_by_prefix(unx_arg(w[1]))
+        if q == "pages" and by_hand:
+            # the public node walk consumed lazily, with another webentity request in the middle
+            ps = list(unx_arg_list(w[2]))
+            r = []
+            for k, (node, lru) in enumerate(self.t.webentity_page_nodes_iter(int(w[1]), ps)):
+                r.append({"lru": lru, "crawled": node.is_crawled()})
+                if k < 20 and k % 2 == 0:
+                    try:
+                        self.t.get_webentity_crawled_pages(int(w[1]), ps[:1])
+                    except TraphException:
+                        pass
+            return "ok " + brack([hx(p["lru"]) + ":" + b01(p["crawled"]) for p in r])
         if q == "pages":
             r = t.get_webentity_pages(int(w[1]), unx_arg_iter(w[2]))
             return "ok " + brack([hx(p["lru"]) + ":" + b01(p["crawled"]) for p in r])
@@ -686,6 +738,11 @@ class Impl(object):
             return "ok done=%s count=%d crawled=%d pages=%s token=%s" % (
                 b01(r["done"]), r["count"], r["count_crawled"],
                 brack([hx(p["lru"]) + ":" + b01(p["crawled"]) for p in r["pages"]]), r.get("token", "-"))
+        if q == "mostlinked" and by_hand:
+            ps = list(unx_arg_list(w[2]))
+            r = self._drain(self.t.get_webentity_most_linked_pages_iter(int(w[1]), ps, pages_count=int(w[3]), max_depth=opt_nat(w[4])),
+                            self._other_walks(int(w[1]), ps))
+            return "ok " + brack(["%s:%d" % (hx(p["lru"]), p["indegree"]) for p in r])
         if q == "mostlinked":
             r = t.get_webentity_most_linked_pages(int(w[1]), unx_arg_list(w[2]), **kw(
                 "get_webentity_most_linked_pages", pages_count=int(w[3]), max_depth=opt_nat(w[4])))
@@ -708,6 +765,11 @@ class Impl(object):
                                 break
                 return "ok " + brack([str(x) for x in sorted(res)])
             return "ok " + brack([str(x) for x in sorted(t.get_webentity_child_webentities(int(w[1]), unx_arg_list(w[2])))])
+        if q == "pagelinks" and by_hand:
+            ps = list(unx_arg_list(w[2]))
+            r = self._drain(self.t.get_webentity_pagelinks_iter(int(w[1]), ps, include_inbound=(w[3] == "1"), include_internal=(w[4] == "1"),
+                                                                include_outbound=(w[5] == "1")), self._other_walks(int(w[1]), ps))
+            return "ok " + render_links(r)
         if q == "pagelinks":
             r = t.get_webentity_pagelinks(int(w[1]), unx_arg_list(w[2]), **kw(
                 "get_webentity_pagelinks", include_inbound=(w[3] == "1"), include_internal=(w[4] == "1"),
@@ -719,6 +781,11 @@ class Impl(object):
                 source_page_count=opt_nat(w[5]), pagination_token=None if w[6] == "-" else w[6]))
             return "ok done=%s sources=%d links=%s token=%s" % (
                 b01(r["done"]), r["count_sourcepages"], render_links(r["pagelinks"]), r.get("token", "-"))
+        if q in ("weout", "wein") and by_hand:
+            ps = list(unx_arg_list(w[2]))
+            f = self.t.get_webentity_outlinks_iter if q == "weout" else self.t.get_webentity_inlinks_iter
+            r = self._drain(f(int(w[1]), ps), self._other_walks(int(w[1]), ps))
+            return "ok " + brack([str(x) for x in sorted(0 if x is None else x for x in r)])
         if q in ("weout", "wein"):
             f = t.get_webentity_outlinks if q == "weout" else t.get_webentity_inlinks
             r = f(int(w[1]), unx_arg_list(w[2]))
@@ -794,6 +861,14 @@ class Impl(object):
         if q == "metrics":
             m = t.metrics()
             lt, lm = m["lru_trie"], m["links"]
+            # the derived figures are functions of the counted ones (floats of integer ratios: compared exactly)
+            ls = m["link_store"]
+            derived_ok = (ls["nb_outlinks"] * 2 == ls["nb_links"] and
+                          lt["ratio_fragmented_stems"] == lt["nb_fragmented_nodes"] / float(lt["nb_stems"]) and
+                          lt["page_block_density"] == lt["nb_pages"] / float(lt["nb_nodes"]) and
+                          0.0 <= lt["avg_stem_filling"] <= 1.0 + 1e-9 and 0.0 <= lt["avg_tail"] <= lt["max_tail"] + 1e-9)
+            if not derived_ok:
+                return "ok metrics-derived-figures-inconsistent %r" % ({k: lt[k] for k in sorted(lt)},)
             o = lambda x: "none" if x is None else hx(x)  # noqa
             return ("ok nodes=%d pages=%d crawled=%d tail=%d frag=%d stems=%d maxtail=%d links2=%d maxin=%d:%s maxout=%d:%s"
                     % (lt["nb_nodes"], lt["nb_pages"], lt["nb_crawled_pages"], lt["nb_tail_nodes"],
